@@ -1,5 +1,6 @@
 PROPERTY = {
     'id': 'C14',
+ 'extra': ['bounded.c14_contain.run'],
     'contract_modules': ['doctest_example', 'parser'],
     'functions': ['xdoctest.parser:DoctestParser.parse', 'xdoctest.parser:_min_indentation',
                   'xdoctest.parser:DoctestParser._label_docsrc_lines', 'xdoctest.parser:DoctestParser._group_labeled_lines',
@@ -17,7 +18,8 @@ PROPERTY = {
               'only -- a template containing docstring text may raise and is reported); KeyError iff the style is unknown; each parsed example is yielded once'],
         'T': ['the three phases and the three style parsers are assumed contracts here ("may raise anything" / "raise only the library\'s own errors")',
               'termination of tokenize / ast.parse / re'],
-        'B': [],
+        'B': ['texts generated from a grammar of prompt fragments, brackets, quotes, backslashes, directive fragments, control characters and keywords: parse(text) returns or raises DoctestParseError within a time limit; embedded as one docstring between two valid ones x 3 styles, collection raises nothing, the neighbours are collected and pass, and (freeform) a docstring that does not parse gives a warning and no example (bounded/c14_contain.py)',
+              ],
         'N/A': ['"never hangs": termination obligations of balanced_intervals and _complete_source are not generated yet'],
     },
     'explanation': 'C14 as raises= clauses: one obligation per (call site x exception class) for parse and for the per-docstring downgrade.',
